@@ -2,7 +2,9 @@
   T2N.Driver.Exec — executes one request line on the model and renders the canonical answer.
 -/
 import T2N.Driver.Proto
-import T2N.Model.Langs
+import T2N.Driver.CC
+import T2N.Model.Api
+import T2N.Model.Script
 
 namespace T2N.Exec
 open T2N.Proto
@@ -41,7 +43,7 @@ def parseDsOp (s : String) : DsOp :=
 
 def runDs (ops : List String) : String := Id.run do
   let mut b := DS.new
-  let mut outs : Array String := #[]
+  let mut outs : Array String := #[("INIT|" ++ showState b ++ "|" ++ queries b)]
   for o in ops do
     match parseDsOp o with
     | .op op =>
@@ -53,16 +55,93 @@ def runDs (ops : List String) : String := Id.run do
     | .bad => outs := outs.push "bad-op"
   return ";".intercalate outs.toList
 
+structure LangSel where
+  lang : Lang
+  annot : CharClasses → List Tok → List Tok
+
+def facadeOf (code : String) : Option Language :=
+  allLanguages.find? (fun l => String.ofList l.iso == code)
+
+/-- `en`.. concrete interpreters, `L:en`.. the `Language` facade, `G:en`.. through
+`get_interpreter_for`, `script` the scripted interpreter. In the model the first two coincide. -/
+def selLang (code : String) : Option LangSel :=
+  if code == "script" then some ⟨Script.lang, fun _ => id⟩
+  else if code.startsWith "G:" then
+    (getInterpreterFor (code.drop 2).toString.toList).map (fun l => ⟨l.interp, fun cc => l.annotate cc⟩)
+  else
+    let c := if code.startsWith "L:" then (code.drop 2).toString else code
+    (facadeOf c).map (fun l => ⟨l.interp, fun cc => l.annotate cc⟩)
+
 def withLang (code : String) (f : Lang → String) : String :=
-  match langByCode code with
-  | some l => f l
+  match selLang code with
+  | some l => f l.lang
   | none => "no-lang"
 
 def showFmt : Except Fault (String × Value) → String
   | .ok (t, v) => escapeStr t ++ "|" ++ showValue v
   | .error _ => "PANIC"
 
-def exec (line : String) : String :=
+def showOcc (o : Occ) : String :=
+  toString o.start ++ "-" ++ toString o.stop ++ ":" ++ escape o.text ++ ":" ++ showBool o.isOrdinal ++ ":" ++
+    showValue o.value
+
+def parseTok (s : String) : Tok :=
+  match s.splitOn "," with
+  | [t] => { text := unescape t, lower := [] }
+  | [t, l] => { text := unescape t, lower := unescape l }
+  | [t, l, n] => { text := unescape t, lower := unescape l, nan := n == "1" }
+  | [t, l, n, a, b] => { text := unescape t, lower := unescape l, nan := n == "1", tstart := a.toNat!, tend := b.toNat! }
+  | _ => { text := [], lower := [] }
+
+def parseToks (s : String) : List Tok := ((s.splitOn " ").filter (· ≠ "")).map parseTok
+
+def harnessSep (t prev : Tok) : Bool := t.tstart > prev.tend + 100
+
+inductive OutTok where
+  | kept (i : Nat)
+  | repl (text : Word) (children : List OutTok)
+
+def showOutTok : OutTok → String
+  | .kept i => "K" ++ toString i
+  | .repl t ch => "R" ++ escape t ++ "[" ++ ".".intercalate (ch.map (fun c => match c with | .kept i => toString i | .repl _ _ => "M")) ++ "]"
+
+def iterTrace (cfg : ScanCfg) : Nat → Nat → Iter → List String → Except Fault (List String)
+  | 0, _, _, acc => .ok acc.reverse
+  | fuel + 1, nones, it, acc =>
+    if nones ≥ 3 then .ok acc.reverse
+    else
+      match it.next cfg with
+      | .error f => .error f
+      | .ok (some o, it') => iterTrace cfg fuel nones it' ((showOcc o ++ "@" ++ toString it'.consumed) :: acc)
+      | .ok (none, it') => iterTrace cfg fuel (nones + 1) it' (("N@" ++ toString it'.consumed) :: acc)
+
+def runScan (cfg : ScanCfg) (toks : List Tok) : String :=
+  match findNumbers cfg toks with
+  | .error _ => "PANIC"
+  | .ok occs =>
+    match iterTrace cfg (toks.length + 8) 0 (iterNew toks) ["@0"] with
+    | .error _ => "PANIC"
+    | .ok trace =>
+      let init : List OutTok := (List.range toks.length).map OutTok.kept
+      match replaceStream (fun ch data => OutTok.repl data ch) init occs with
+      | .error _ => "PANIC"
+      | .ok out =>
+        ",".intercalate (occs.map showOcc) ++ "|" ++ ",".intercalate trace ++ "|" ++
+          ",".intercalate (out.map showOutTok)
+
+def showVal : ValOut → String
+  | .ok d => "OK:" ++ escape d
+  | .err e => "ERR:" ++ e.toString
+  | .panic => "PANIC"
+
+def sigWords : List (String × Word) :=
+  [("en", w!"seven"), ("fr", w!"sept"), ("es", w!"siete"), ("pt", w!"sete"), ("it", w!"sette"),
+   ("de", w!"sieben"), ("nl", w!"zeven")]
+
+def lookupSig (l : Lang) : String :=
+  "+".intercalate ((sigWords.filter (fun (_, w) => match text2digitsWords l [w] with | .ok _ => true | _ => false)).map (·.1))
+
+def exec (cc : CharClasses) (line : String) : String :=
   match line.splitOn "\t" with
   | ["ds", ops] => runDs ((ops.splitOn " ").filter (· ≠ ""))
   | ["apply", lc, w, st] => withLang lc fun l =>
@@ -76,6 +155,42 @@ def exec (line : String) : String :=
   | ["link", lc, w] => withLang lc fun l => showBool (l.isLinking (unescape w))
   | ["fmt", lc, st] => withLang lc fun l => showFmt (l.format (parseState st))
   | ["fmtdec", lc, st1, st2] => withLang lc fun l => showFmt (l.formatDecimal (parseState st1) (parseState st2))
+  | ["val", lc, phrase] => withLang lc fun l => showVal (text2digits cc l (unescape phrase))
+  | ["text", lc, thr, text] =>
+    match selLang lc with
+    | none => "no-lang"
+    | some sel =>
+      let cfg : ScanCfg := { lang := sel.lang, cc := cc, sep := noSep, thrLt := CC.thrLtBits (CC.parseHex thr) }
+      match replaceTextWith cfg (sel.annot cc) (unescape text) with
+      | .ok out => escape out
+      | .error _ => "PANIC"
+  | ["scan", lc, thr, toks] =>
+    match selLang lc with
+    | none => "no-lang"
+    | some sel =>
+      let cfg : ScanCfg := { lang := sel.lang, cc := cc, sep := harnessSep, thrLt := CC.thrLtBits (CC.parseHex thr) }
+      runScan cfg (parseToks toks)
+  | ["occ", lc, thr, text] =>
+    match selLang lc with
+    | none => "no-lang"
+    | some sel =>
+      let cfg : ScanCfg := { lang := sel.lang, cc := cc, sep := noSep, thrLt := CC.thrLtBits (CC.parseHex thr) }
+      let toks := sel.annot cc (tokenize cc (unescape text))
+      match findNumbers cfg toks with
+      | .error _ => "PANIC"
+      | .ok occs =>
+        ",".intercalate (occs.map showOcc) ++ "|" ++
+          ",".intercalate (toks.map (fun t => escape t.text ++ ":" ++ showBool t.nan))
+  | ["tok", text] =>
+    ",".intercalate ((tokenize cc (unescape text)).map (fun t => escape t.text ++ ":" ++ escape t.lower))
+  | ["annot", lc, toks] =>
+    match selLang lc with
+    | none => "no-lang"
+    | some sel => String.join ((sel.annot cc (parseToks toks)).map (fun t => showBool t.nan))
+  | ["lookup", code] =>
+    match getInterpreterFor (unescape code) with
+    | some l => "some:" ++ lookupSig l.interp
+    | none => "none"
   | _ => "bad-request"
 
 end T2N.Exec
